@@ -57,7 +57,7 @@ class Reporter:
 
     def violation(self, entry, no_input=False):
         self.n += 1
-        blob = json.dumps(entry, sort_keys=True, default=str)
+        blob = json.dumps(entry, default=str)       # (no sort_keys: documents may have mixed-type keys)
         h = hashlib.sha256(blob.encode()).hexdigest()[:10]
         path = os.path.join('replays', f"{self.prop}-{h}.json")
         entry = dict(entry)
@@ -296,5 +296,16 @@ def write_evidence(a, prop, ded, ob_table, n_obl, n_dis, solver_ms, out_of_reach
         json.dump(ev, f, indent=1, default=str)
 
 
+def _main_guarded():
+    try:
+        return main()
+    except SystemExit:
+        raise
+    except BaseException:      # a crash of the machinery must never look like a violation (exit 1)
+        traceback.print_exc()
+        print("CHECKER-CRASH: uncaught exception in the check driver", file=sys.stderr)
+        return 3
+
+
 if __name__ == '__main__':
-    sys.exit(main())
+    sys.exit(_main_guarded())
